@@ -40,8 +40,22 @@
 //!               schedules; `--sample m` points per base) every in-flight call runs alone: SOLO lines,
 //!               `HFAIL solo budget` beyond `--budget B` steps
 //! `--shard i/n` partitions the schedules of a mode (DFS subtrees / run indices) for parallel runs.
-//! Scenarios: `--scenario name,name|all` (`--list`), `--scenario-file f` (NAME/INIT/TREES|FRAMES/PRE/CALL
+//! Scenarios: `--scenario name,name|all` (`--list`), `--scenario-file f` (NAME/INIT/TREES|FRAMES/CLASSING/PRE/CALL
 //! lines, or a transcript block).  `putlast <order>` frees the block of the thread's latest get.
+//!
+//! `--api upper` selects the scenarios (names `u-*`) whose threads call the WHOLE allocator:
+//!   uget <frame|-> <order> <class> <local|->      LLFree::get          -> `ok <frame> <class>`
+//!   uput <frame> <order> <class> <local|->        LLFree::put
+//!   udrain                                        LLFree::drain
+//!   uchange <id|-> <class|-> <free> <newclass|-> <online|offline|->   LLFree::change_tree
+//!   (scenario-side: uputlast, uputpre <pre idx> <off> .., ugetpre <pre idx> <off> .. refer to earlier results)
+//! with a classing per scenario (`CFG .. api=upper default=<c> policy=<simple|movable|zeroed|custom> classes=<c>:<n>,..`).
+//! Hooked addresses of the trees buffer (u32 per tree) and of the local buffer (one 64-byte `Local` per slot,
+//! in classing order) become `S <tid> <kind> tree <i> 0 0 32 ..` and `S <tid> <kind> slot <class> <idx> 0 64 ..`
+//! lines; END also dumps `trees=<hex u32,..> slots=<hex u64,..>`.  After a run without panic the main thread adds
+//! quiescent observations: `POST stats ..`, `POST tree_stats ..`, `POST validate ok|panic ..`, then `POST udrain` and
+//! probe allocations `POST uget .. <result>` (a base get per class, targeted gets of a free frame, a held frame and a
+//! free huge frame), `POST stats ..` and `POSTEND <dump>` (driver/ustep.ml: C04, C10).
 use std::cell::{Cell, RefCell};
 use std::collections::HashSet;
 use std::fmt::Write as FmtWrite;
@@ -53,7 +67,8 @@ use std::thread::Thread;
 
 use llfree::verif::{Kind, lower_get, lower_put, set_hooks};
 use llfree::{
-    Alloc, Classing, Error, HUGE_FRAMES, HUGE_ORDER, Init, LLFree, MetaData, TREE_FRAMES, TREE_HUGE, TREE_ORDER,
+    Alloc, Class, Classing, Error, FrameId, HUGE_FRAMES, HUGE_ORDER, Init, LLFree, MetaData, Policy, PolicyFn, Request, TREE_FRAMES,
+    TREE_HUGE, TREE_ORDER, TreeChange, TreeId, TreeMatch, TreeOperation,
 };
 use llfree_verif_harness::{Args, Rng, out};
 
@@ -74,11 +89,30 @@ enum CallSpec {
     Put(usize, usize),
     /// free the block returned by this thread's most recent successful get (dropped if there is none)
     PutLast(usize),
+    // ---- the upper API (`--api upper` scenarios): LLFree::get/put/drain/change_tree
+    UGet { frame: Option<usize>, order: usize, class: u8, local: Option<usize> },
+    UPut { frame: usize, order: usize, class: u8, local: Option<usize> },
+    /// free the block of this thread's most recent successful get
+    UPutLast { order: usize, class: u8, local: Option<usize> },
+    /// free (part of) the block returned by prologue call `idx`: frame = result + off
+    UPutPre { idx: usize, off: usize, order: usize, class: u8, local: Option<usize> },
+    /// targeted get of (part of) the block returned by prologue call `idx`
+    UGetPre { idx: usize, off: usize, order: usize, class: u8, local: Option<usize> },
+    UDrain,
+    /// op: 0 none, 1 online, 2 offline
+    UChange { id: Option<usize>, mclass: Option<u8>, mfree: usize, cclass: Option<u8>, op: u8 },
+}
+impl CallSpec {
+    fn is_upper(&self) -> bool {
+        !matches!(self, CallSpec::Get(..) | CallSpec::GetAt(..) | CallSpec::Put(..) | CallSpec::PutLast(..))
+    }
 }
 
 #[derive(Clone, Debug, PartialEq, Eq)]
 enum Res {
     Frame(usize),
+    /// upper get: frame and class
+    Frame2(usize, u8),
     Unit,
     Err(&'static str),
     Panic(String),
@@ -87,6 +121,7 @@ impl Res {
     fn text(&self) -> String {
         match self {
             Res::Frame(f) => format!("ok {f}"),
+            Res::Frame2(f, c) => format!("ok {f} {c}"),
             Res::Unit => "ok".into(),
             Res::Err(e) => format!("err {e}"),
             Res::Panic(m) => format!("panic {m}"),
@@ -100,6 +135,25 @@ fn call_text(c: CallSpec) -> String {
         CallSpec::GetAt(f, o) => format!("getat {f} {o}"),
         CallSpec::Put(f, o) => format!("put {f} {o}"),
         CallSpec::PutLast(o) => format!("putlast {o}"),
+        CallSpec::UGet { frame, order, class, local } => format!("uget {} {order} {class} {}", opt(frame), opt(local)),
+        CallSpec::UPut { frame, order, class, local } => format!("uput {frame} {order} {class} {}", opt(local)),
+        CallSpec::UPutLast { order, class, local } => format!("uputlast {order} {class} {}", opt(local)),
+        CallSpec::UPutPre { idx, off, order, class, local } => format!("uputpre {idx} {off} {order} {class} {}", opt(local)),
+        CallSpec::UGetPre { idx, off, order, class, local } => format!("ugetpre {idx} {off} {order} {class} {}", opt(local)),
+        CallSpec::UDrain => "udrain".into(),
+        CallSpec::UChange { id, mclass, mfree, cclass, op } => format!(
+            "uchange {} {} {mfree} {} {}",
+            opt(id),
+            opt(mclass.map(|c| c as usize)),
+            opt(cclass.map(|c| c as usize)),
+            ["-", "online", "offline"][op as usize]
+        ),
+    }
+}
+fn opt(x: Option<usize>) -> String {
+    match x {
+        Some(v) => v.to_string(),
+        None => "-".into(),
     }
 }
 
@@ -269,9 +323,128 @@ fn exec(alloc: &LLFree, c: CallSpec) -> Res {
             Ok(()) => Res::Unit,
             Err(e) => Res::Err(err_text(e)),
         },
-        CallSpec::PutLast(_) => unreachable!("putlast is resolved by the scheduler"),
+        CallSpec::PutLast(_) | CallSpec::UPutLast { .. } | CallSpec::UPutPre { .. } | CallSpec::UGetPre { .. } => unreachable!("resolved by the scheduler"),
+        CallSpec::UGet { frame, order, class, local } => match alloc.get(frame.map(FrameId), Request::new(order, Class(class), local)) {
+            Ok((f, c)) => Res::Frame2(f.0, c.0),
+            Err(e) => Res::Err(err_text(e)),
+        },
+        CallSpec::UPut { frame, order, class, local } => match alloc.put(FrameId(frame), Request::new(order, Class(class), local)) {
+            Ok(()) => Res::Unit,
+            Err(e) => Res::Err(err_text(e)),
+        },
+        CallSpec::UDrain => {
+            alloc.drain();
+            Res::Unit
+        }
+        CallSpec::UChange { id, mclass, mfree, cclass, op } => {
+            let m = TreeMatch { id: id.map(TreeId), class: mclass.map(Class), free: mfree };
+            let operation = match op {
+                1 => Some(TreeOperation::Online),
+                2 => Some(TreeOperation::Offline),
+                _ => None,
+            };
+            match alloc.change_tree(m, TreeChange { class: cclass.map(Class), operation }) {
+                Ok(()) => Res::Unit,
+                Err(e) => Res::Err(err_text(e)),
+            }
+        }
     }
 }
+
+// ------------------------------------------------------------------------------------------------
+// classings of the upper-API scenarios (same names as seqrun / Policies.v)
+// ------------------------------------------------------------------------------------------------
+#[derive(Clone, Copy, Debug, PartialEq, Eq)]
+enum Pol {
+    Simple,
+    Movable,
+    Zeroed,
+    Custom,
+}
+impl Pol {
+    fn name(self) -> &'static str {
+        match self {
+            Pol::Simple => "simple",
+            Pol::Movable => "movable",
+            Pol::Zeroed => "zeroed",
+            Pol::Custom => "custom",
+        }
+    }
+    fn parse(s: &str) -> Self {
+        match s {
+            "simple" | "zeroslot" => Pol::Simple,
+            "movable" => Pol::Movable,
+            "zeroed" => Pol::Zeroed,
+            "custom" => Pol::Custom,
+            _ => panic!("schedrun: unknown policy {s}"),
+        }
+    }
+    fn func(self) -> PolicyFn {
+        match self {
+            Pol::Simple => Classing::simple(1).0.policy,
+            Pol::Movable => Classing::movable(1).0.policy,
+            Pol::Zeroed => zeroed_policy,
+            Pol::Custom => custom_policy,
+        }
+    }
+}
+/// eval/tests/integration.rs `zeroed_steals_from_huge` (Policies.v `pol_zeroed`)
+fn zeroed_policy(requested: Class, target: Class, free: usize) -> Policy {
+    if requested.0 > target.0 {
+        return Policy::Steal;
+    } else if requested.0 < target.0 {
+        return Policy::Demote;
+    }
+    match free {
+        f if f >= TREE_FRAMES / 2 => Policy::Match(1),
+        f if f >= TREE_FRAMES / 64 => Policy::Match(u8::MAX),
+        _ => Policy::Match(0),
+    }
+}
+/// requested 0 on target 2 and requested 2 on target 0 are unusable (Policies.v `pol_custom`)
+fn custom_policy(requested: Class, target: Class, free: usize) -> Policy {
+    if (requested.0 == 0 && target.0 == 2) || (requested.0 == 2 && target.0 == 0) {
+        return Policy::Invalid;
+    }
+    zeroed_policy(requested, target, free)
+}
+
+#[derive(Clone, Debug)]
+struct UCfg {
+    pol: Pol,
+    default: u8,
+    classes: Vec<(u8, usize)>,
+}
+impl UCfg {
+    fn lower_only() -> Self {
+        // Classing::simple(1)
+        UCfg { pol: Pol::Simple, default: 1, classes: vec![(0, 1), (1, 1)] }
+    }
+    fn classing(&self) -> Classing {
+        let cl: Vec<(Class, usize)> = self.classes.iter().map(|&(c, n)| (Class(c), n)).collect();
+        Classing::new(&cl, Class(self.default), self.pol.func())
+    }
+    fn nslots(&self) -> usize {
+        self.classes.iter().map(|c| c.1).sum()
+    }
+    /// (class, index) of the slot at position `gi` of the local buffer
+    fn slot_of(&self, gi: usize) -> Option<(u8, usize)> {
+        let mut base = 0;
+        for &(c, n) in &self.classes {
+            if gi < base + n {
+                return Some((c, gi - base));
+            }
+            base += n;
+        }
+        None
+    }
+    fn text(&self) -> String {
+        let cl: Vec<String> = self.classes.iter().map(|(c, n)| format!("{c}:{n}")).collect();
+        format!("default={} policy={} classes={}", self.default, self.pol.name(), cl.join(","))
+    }
+}
+/// the local buffer holds up to this many slots (one cache line each)
+const MAX_SLOTS: usize = 32;
 
 fn exec_caught(alloc: &LLFree, c: CallSpec) -> Res {
     let q = QUIET.with(|t| t.replace(true));
@@ -327,7 +500,8 @@ impl Bufs {
     fn new(frames: usize, classing: &Classing) -> Self {
         let m = LLFree::metadata_size(classing, frames);
         let a = |n: usize| llfree::util::aligned_buf(n.max(64)).as_mut_ptr();
-        Bufs { lower: a(m.lower), lower_len: m.lower, trees: a(m.trees), trees_len: m.trees, local: a(m.local), local_len: m.local }
+        let local_len = MAX_SLOTS * 64;
+        Bufs { lower: a(m.lower), lower_len: m.lower, trees: a(m.trees), trees_len: m.trees, local: a(local_len), local_len }
     }
     fn zero(&self) {
         unsafe {
@@ -388,6 +562,8 @@ fn dump_state(lower: *const u8, frames: usize) -> String {
 enum Loc {
     Row { h: usize, r: usize, bit: usize },
     Ent { h: usize },
+    Tree { i: usize },
+    Slot { class: u8, idx: usize },
     Other(&'static str, usize),
 }
 
@@ -401,6 +577,10 @@ struct Scenario {
     frames: usize,
     pre: Vec<CallSpec>,
     threads: Vec<Vec<CallSpec>>,
+    /// classing (the lower-API scenarios use Classing::simple(1))
+    cfg: UCfg,
+    /// the threads use the upper API
+    upper: bool,
 }
 
 fn builtin() -> Vec<Scenario> {
@@ -412,7 +592,7 @@ fn builtin() -> Vec<Scenario> {
     let rows_h = ROWS; // rows per huge frame
     let v = RefCell::new(Vec::<Scenario>::new());
     let add_frames = |name: &str, alloc_all: bool, frames: usize, pre: Vec<CallSpec>, threads: Vec<Vec<CallSpec>>| {
-        v.borrow_mut().push(Scenario { name: name.into(), alloc_all, frames, pre, threads });
+        v.borrow_mut().push(Scenario { name: name.into(), alloc_all, frames, pre, threads, cfg: UCfg::lower_only(), upper: false });
     };
     let add = |name: &str, alloc_all: bool, trees: usize, pre: Vec<CallSpec>, threads: Vec<Vec<CallSpec>>| {
         add_frames(name, alloc_all, trees * tf, pre, threads)
@@ -558,16 +738,36 @@ fn builtin() -> Vec<Scenario> {
             vec![vec![Put(5, 0)], vec![Put(hf, ho)], vec![Get(0, 0)]],
         );
     }
-    v.into_inner()
+    let mut all = v.into_inner();
+    all.extend(builtin_upper());
+    all
 }
 
 fn parse_call(t: &[&str]) -> CallSpec {
     let n = |i: usize| -> usize { t.get(i).and_then(|s| s.parse().ok()).unwrap_or_else(|| panic!("bad call {t:?}")) };
+    let on = |i: usize| -> Option<usize> { t.get(i).and_then(|s| s.parse().ok()) };
     match t[0] {
         "get" => CallSpec::Get(n(1), n(2)),
         "getat" => CallSpec::GetAt(n(1), n(2)),
         "put" => CallSpec::Put(n(1), n(2)),
         "putlast" => CallSpec::PutLast(n(1)),
+        "uget" => CallSpec::UGet { frame: on(1), order: n(2), class: n(3) as u8, local: on(4) },
+        "uput" => CallSpec::UPut { frame: n(1), order: n(2), class: n(3) as u8, local: on(4) },
+        "uputlast" => CallSpec::UPutLast { order: n(1), class: n(2) as u8, local: on(3) },
+        "ugetpre" => CallSpec::UGetPre { idx: n(1), off: n(2), order: n(3), class: n(4) as u8, local: on(5) },
+        "uputpre" => CallSpec::UPutPre { idx: n(1), off: n(2), order: n(3), class: n(4) as u8, local: on(5) },
+        "udrain" => CallSpec::UDrain,
+        "uchange" => CallSpec::UChange {
+            id: on(1),
+            mclass: on(2).map(|c| c as u8),
+            mfree: n(3),
+            cclass: on(4).map(|c| c as u8),
+            op: match t.get(5).copied() {
+                Some("online") => 1,
+                Some("offline") => 2,
+                _ => 0,
+            },
+        },
         _ => panic!("bad call {t:?}"),
     }
 }
@@ -575,7 +775,22 @@ fn parse_call(t: &[&str]) -> CallSpec {
 /// scenario file: `NAME x`, `INIT free|alloc`, `FRAMES n` | `TREES n`, `PRE <call>`, `CALL <tid> <call>`
 /// (a transcript block works too: RUN/CFG/PRE/CALL lines are understood, the rest is ignored)
 fn scenario_from_file(path: &str) -> Scenario {
-    let mut s = Scenario { name: "file".into(), alloc_all: false, frames: TREE_FRAMES, pre: vec![], threads: vec![] };
+    let mut s = Scenario {
+        name: "file".into(),
+        alloc_all: false,
+        frames: TREE_FRAMES,
+        pre: vec![],
+        threads: vec![],
+        cfg: UCfg::lower_only(),
+        upper: false,
+    };
+    let call_len = |k: &str| match k {
+        "uget" | "uput" => 5,
+        "udrain" => 1,
+        "uchange" | "uputpre" | "ugetpre" => 6,
+        "uputlast" => 4,
+        _ => 3,
+    };
     for line in std::fs::read_to_string(path).expect("scenario file").lines() {
         let t: Vec<&str> = line.split_whitespace().collect();
         if t.is_empty() || t[0].starts_with('#') {
@@ -601,9 +816,37 @@ fn scenario_from_file(path: &str) -> Scenario {
                     if let Some(n) = kv.strip_prefix("init=") {
                         s.alloc_all = n == "alloc";
                     }
+                    if let Some(n) = kv.strip_prefix("default=") {
+                        s.cfg.default = n.parse().expect("default");
+                    }
+                    if let Some(n) = kv.strip_prefix("policy=") {
+                        s.cfg.pol = Pol::parse(n);
+                    }
+                    if let Some(n) = kv.strip_prefix("classes=") {
+                        s.cfg.classes = n
+                            .split(',')
+                            .filter(|e| !e.is_empty())
+                            .map(|e| {
+                                let (a, b) = e.split_once(':').expect("classes=c:n,..");
+                                (a.parse().expect("class"), b.parse().expect("slots"))
+                            })
+                            .collect();
+                    }
                 }
             }
-            "PRE" => s.pre.push(parse_call(&t[1..4])),
+            "CLASSING" => {
+                // CLASSING <policy> <default> <c:n,c:n,..>
+                s.cfg.pol = Pol::parse(t[1]);
+                s.cfg.default = t[2].parse().expect("default");
+                s.cfg.classes = t[3]
+                    .split(',')
+                    .map(|e| {
+                        let (a, b) = e.split_once(':').expect("c:n");
+                        (a.parse().expect("class"), b.parse().expect("slots"))
+                    })
+                    .collect();
+            }
+            "PRE" => s.pre.push(parse_call(&t[1..(1 + call_len(t[1])).min(t.len())])),
             "CALL" => {
                 let tid: usize = t[1].parse().expect("tid");
                 while s.threads.len() <= tid {
@@ -615,7 +858,174 @@ fn scenario_from_file(path: &str) -> Scenario {
         }
     }
     assert!(!s.threads.is_empty() && s.threads.len() <= MAXT, "scenario file: 1..4 threads");
+    s.upper = s.threads.iter().flatten().chain(s.pre.iter()).any(|c| c.is_upper());
     s
+}
+
+/// the built-in scenarios of the upper API
+fn builtin_upper() -> Vec<Scenario> {
+    use CallSpec::*;
+    let tf = TREE_FRAMES;
+    let ho = HUGE_ORDER;
+    let to = TREE_ORDER;
+    let s1 = || UCfg { pol: Pol::Simple, default: 1, classes: vec![(0, 1), (1, 1)] };
+    let s2 = || UCfg { pol: Pol::Simple, default: 1, classes: vec![(0, 2), (1, 2)] };
+    let mv = || UCfg { pol: Pol::Movable, default: 2, classes: vec![(0, 1), (1, 1), (2, 1)] };
+    let ze = || UCfg { pol: Pol::Zeroed, default: 1, classes: vec![(0, 1), (1, 1), (2, 1)] };
+    let cu = || UCfg { pol: Pol::Custom, default: 1, classes: vec![(0, 1), (1, 1), (2, 1)] };
+    let zs = || UCfg { pol: Pol::Simple, default: 1, classes: vec![(0, 1), (1, 0)] };
+    let g = |order: usize, class: u8, local: Option<usize>| UGet { frame: None, order, class, local };
+    let ga = |frame: usize, order: usize, class: u8, local: Option<usize>| UGet { frame: Some(frame), order, class, local };
+    let pp = |idx: usize, off: usize, order: usize, class: u8, local: Option<usize>| UPutPre { idx, off, order, class, local };
+    let pl = |order: usize, class: u8, local: Option<usize>| UPutLast { order, class, local };
+    let offline = |i: usize| UChange { id: Some(i), mclass: None, mfree: tf, cclass: None, op: 2 };
+    let online = |i: usize| UChange { id: Some(i), mclass: None, mfree: 0, cclass: None, op: 1 };
+    let mut v: Vec<Scenario> = Vec::new();
+    let mut add = |name: &str, cfg: UCfg, alloc_all: bool, trees: usize, pre: Vec<CallSpec>, threads: Vec<Vec<CallSpec>>| {
+        v.push(Scenario { name: name.into(), alloc_all, frames: trees * tf, pre, threads, cfg, upper: true });
+    };
+    // --- gets racing on one slot / different slots / without a slot
+    add("u-get0-get0-slot", s1(), false, 2, vec![], vec![vec![g(0, 0, Some(0))], vec![g(0, 0, Some(0))]]);
+    add("u-get0-get0-warm", s1(), false, 2, vec![g(0, 0, Some(0))], vec![vec![g(0, 0, Some(0))], vec![g(0, 0, Some(0))]]);
+    add("u-get0-get0-2slots", s2(), false, 3, vec![], vec![vec![g(0, 0, Some(0))], vec![g(0, 0, Some(1))]]);
+    add("u-get0-get0-noslot", s1(), false, 2, vec![], vec![vec![g(0, 0, None)], vec![g(0, 0, None)]]);
+    // both allocate in the same huge frame of the same tree: the multi-row search of the lower allocator under the upper API
+    add("u-get7-get0-noslot", s1(), false, 2, vec![], vec![vec![g(7, 0, None)], vec![g(0, 0, None)]]);
+    add("u-get0-get9-classes", s1(), false, 2, vec![], vec![vec![g(0, 0, Some(0))], vec![g(ho, 1, Some(0))]]);
+    add("u-get7-get0-warm", s1(), false, 2, vec![g(0, 0, Some(0))], vec![vec![g(7, 0, Some(0))], vec![g(0, 0, Some(0))]]);
+    // the slot runs dry: sync with the global counter, then reserve another tree
+    add("u-getT-get0-warm", s1(), false, 3, vec![g(0, 0, Some(0))], vec![vec![g(to, 0, Some(0))], vec![g(0, 0, Some(0))]]);
+    // --- get vs put of the same tree, with and without slot
+    add("u-put-get-slot", s1(), false, 2, vec![g(0, 0, Some(0))], vec![vec![pp(0, 0, 0, 0, Some(0))], vec![g(0, 0, Some(0))]]);
+    add("u-put-get-noslot", s1(), false, 2, vec![g(0, 0, Some(0))], vec![vec![pp(0, 0, 0, 0, None)], vec![g(0, 0, Some(0))]]);
+    // the put goes to the global counter, the tree-order get needs it (sync)
+    add("u-put-getT-sync", s1(), false, 2, vec![g(0, 0, Some(0))], vec![vec![pp(0, 0, 0, 0, None)], vec![g(to, 0, Some(0))]]);
+    add("u-getput-getput", s1(), false, 2, vec![], vec![vec![g(0, 0, Some(0)), pl(0, 0, Some(0))], vec![g(0, 0, Some(0)), pl(0, 0, Some(0))]]);
+    add("u-put-put-global", s1(), false, 2, vec![g(0, 0, None), g(0, 0, None)], vec![vec![pp(0, 0, 0, 0, None)], vec![pp(1, 0, 0, 0, None)]]);
+    // the last allocated frames of a tree are freed: the tree becomes entirely free (class reset)
+    add("u-putT-get0", s1(), false, 2, vec![g(to, 0, None)], vec![vec![pp(0, 0, to, 0, None)], vec![g(0, 0, Some(0))]]);
+    // --- drains
+    add("u-get-drain", s1(), false, 2, vec![g(0, 0, Some(0))], vec![vec![g(0, 0, Some(0))], vec![UDrain]]);
+    add("u-drain-drain", s1(), false, 2, vec![g(0, 0, Some(0)), g(0, 1, Some(0))], vec![vec![UDrain], vec![UDrain]]);
+    add("u-put-drain", s1(), false, 2, vec![g(0, 0, Some(0))], vec![vec![pp(0, 0, 0, 0, Some(0))], vec![UDrain]]);
+    // --- steal: class 1 request while class 0 holds the reservation (both trees taken)
+    add(
+        "u-steal-local",
+        s1(),
+        false,
+        2,
+        vec![g(0, 0, Some(0)), g(to, 1, Some(0))],
+        vec![vec![g(0, 1, Some(0))], vec![g(0, 0, Some(0))]],
+    );
+    add("u-steal-global", s1(), false, 2, vec![g(0, 0, None)], vec![vec![g(0, 1, None)], vec![g(0, 0, None)]]);
+    // --- demote: class 0 request takes over the reservation of class 1
+    add(
+        "u-demote-local",
+        s1(),
+        false,
+        2,
+        vec![g(0, 1, Some(0)), g(to, 0, Some(0))],
+        vec![vec![g(0, 0, Some(0))], vec![g(0, 1, Some(0))]],
+    );
+    add(
+        "u-demote-noslot",
+        s1(),
+        false,
+        2,
+        vec![g(0, 1, Some(0)), g(to, 0, None)],
+        vec![vec![g(0, 0, None)], vec![g(0, 1, Some(0))]],
+    );
+    // --- targeted gets
+    add("u-getat-getat-slot", s1(), false, 2, vec![], vec![vec![ga(70, 0, 0, Some(0))], vec![ga(70, 0, 0, Some(0))]]);
+    add("u-getat-getat-noslot", s1(), false, 2, vec![], vec![vec![ga(70, 0, 0, None)], vec![ga(71, 0, 0, None)]]);
+    add("u-getat-get-warm", s1(), false, 2, vec![g(0, 0, Some(0))], vec![vec![ga(tf + 3, 0, 0, Some(0))], vec![g(0, 0, Some(0))]]);
+    add("u-getat9-get0", s1(), false, 2, vec![], vec![vec![ga(0, ho, 1, None)], vec![g(0, 0, Some(0))]]);
+    // a targeted get without slot into a tree that is reserved (its global counter holds the frame freed without slot)
+    add(
+        "u-getat-reserved",
+        s1(),
+        false,
+        2,
+        vec![g(0, 0, Some(0)), pp(0, 0, 0, 0, None)],
+        vec![vec![UGetPre { idx: 0, off: 0, order: 0, class: 0, local: None }], vec![g(0, 0, Some(0))]],
+    );
+    // --- change_tree
+    add("u-get-offline", s1(), false, 2, vec![], vec![vec![g(0, 0, None)], vec![offline(1)]]);
+    add("u-getslot-offline", s1(), false, 2, vec![], vec![vec![g(0, 0, Some(0))], vec![offline(1)]]);
+    add("u-online-getT", s1(), false, 2, vec![offline(1), g(to, 1, None)], vec![vec![online(1)], vec![g(to, 0, None)]]);
+    add("u-offline-offline", s1(), false, 2, vec![], vec![vec![offline(0)], vec![offline(0)]]);
+    add(
+        "u-reclass-get",
+        s1(),
+        false,
+        2,
+        vec![],
+        vec![vec![UChange { id: None, mclass: Some(1), mfree: tf, cclass: Some(0), op: 0 }], vec![g(0, 1, None)]],
+    );
+    // --- exhaustion: the last frames
+    add(
+        "u-exhaust",
+        s1(),
+        false,
+        2,
+        vec![g(to, 1, None), g(to - 1, 1, None), g(to - 2, 1, None), ga(tf + tf / 2 + tf / 4, to - 2, 1, None), g(0, 0, Some(0))],
+        vec![vec![g(to - 2, 0, Some(0))], vec![g(to - 3, 0, Some(0))]],
+    );
+    add(
+        "u-exhaust-last",
+        s1(),
+        true,
+        2,
+        vec![UPut { frame: 5, order: 0, class: 0, local: None }],
+        vec![vec![g(0, 0, Some(0))], vec![g(0, 0, Some(0))]],
+    );
+    // --- puts of parts of one huge block through the upper API  [D13]
+    add("u-split-put0-put0", s1(), false, 2, vec![g(ho, 1, Some(0))], vec![vec![pp(0, 5, 0, 1, Some(0))], vec![pp(0, 6, 0, 1, Some(0))]]);
+    add("u-split-put0-get0", s1(), false, 2, vec![g(ho, 1, Some(0))], vec![vec![pp(0, 5, 0, 1, None)], vec![g(0, 1, Some(0))]]);
+    // --- fragmentation: every huge frame has one frame allocated, so the tree counters admit an order-9 request that
+    // the lower allocator cannot serve: the undo paths of reserve_or_steal / steal_global / get_local
+    let frag = |trees: usize| -> Vec<CallSpec> {
+        (0..trees * TREE_HUGE).map(|h| ga(h * HUGE_FRAMES, 0, 0, None)).collect()
+    };
+    add("u-frag-get9-get0", s1(), false, 2, frag(2), vec![vec![g(ho, 1, Some(0))], vec![g(0, 0, Some(0))]]);
+    add("u-frag-get9-noslot", s1(), false, 2, frag(2), vec![vec![g(ho, 1, None)], vec![g(0, 0, None)]]);
+    {
+        let mut pre = frag(2);
+        pre.push(g(0, 0, Some(0)));
+        add("u-frag-get9-local", s1(), false, 2, pre, vec![vec![g(ho, 0, Some(0))], vec![g(0, 0, Some(0))]]);
+    }
+    // --- other classings
+    add("u-mov-get-get", mv(), false, 3, vec![], vec![vec![g(0, 0, Some(0))], vec![g(0, 1, Some(0))]]);
+    add("u-mov-get9-get0", mv(), false, 3, vec![g(0, 1, Some(0))], vec![vec![g(ho, 2, Some(0))], vec![g(0, 0, Some(0))]]);
+    add(
+        "u-zeroed-steal",
+        ze(),
+        false,
+        2,
+        vec![g(0, 0, Some(0)), g(to, 1, Some(0))],
+        vec![vec![g(0, 2, Some(0))], vec![g(0, 0, Some(0))]],
+    );
+    add("u-custom-get-get", cu(), false, 2, vec![g(0, 2, Some(0))], vec![vec![g(0, 0, Some(0))], vec![g(0, 2, Some(0))]]);
+    add("u-zeroslot-get-get", zs(), false, 2, vec![], vec![vec![g(0, 1, Some(0))], vec![g(0, 0, Some(0))]]);
+    // --- three threads
+    add("u-mix3-get-get-drain", s1(), false, 2, vec![g(0, 0, Some(0))], vec![vec![g(0, 0, Some(0))], vec![g(0, 1, Some(0))], vec![UDrain]]);
+    add(
+        "u-mix3-get-put-get9",
+        s1(),
+        false,
+        2,
+        vec![g(0, 0, Some(0))],
+        vec![vec![g(0, 0, Some(0))], vec![pp(0, 0, 0, 0, None)], vec![g(ho, 1, None)]],
+    );
+    add(
+        "u-mix3-2slots",
+        s2(),
+        false,
+        3,
+        vec![],
+        vec![vec![g(0, 0, Some(0)), pl(0, 0, Some(0))], vec![g(0, 0, Some(1))], vec![g(3, 1, Some(0))]],
+    );
+    v
 }
 
 // ------------------------------------------------------------------------------------------------
@@ -632,7 +1042,6 @@ enum St {
 struct Env {
     bufs: Bufs,
     snap: Bufs,
-    classing: Classing,
     frames: usize,
     snapshots: bool,
 }
@@ -658,6 +1067,8 @@ struct Exec<'a> {
     text: String,
     /// result of the last completed call per thread
     last_res: Vec<Option<Res>>,
+    /// frames returned by the prologue calls (None: not a successful get)
+    pre_res: Vec<Option<usize>>,
 }
 
 fn overlap(a: (usize, usize), b: (usize, usize)) -> bool {
@@ -669,7 +1080,9 @@ impl<'a> Exec<'a> {
         let n = scn.threads.len();
         env.bufs.zero();
         let init = if scn.alloc_all { Init::AllocAll } else { Init::FreeAll };
-        let alloc = Box::new(LLFree::new(scn.frames, init, &env.classing, env.bufs.meta()).expect("LLFree::new"));
+        assert!(scn.cfg.nslots() <= MAX_SLOTS);
+        let classing = scn.cfg.classing();
+        let alloc = Box::new(LLFree::new(scn.frames, init, &classing, env.bufs.meta()).expect("LLFree::new"));
         ALLOC.store(&*alloc as *const LLFree as usize, Ordering::Release);
         let mut ex = Exec {
             env,
@@ -689,13 +1102,15 @@ impl<'a> Exec<'a> {
             panics: 0,
             text: String::with_capacity(4096),
             last_res: vec![None; n],
+            pre_res: Vec::new(),
         };
         let _ = writeln!(ex.text, "RUN {run} scenario={} mode={mode}", scn.name);
         let _ = writeln!(
             ex.text,
-            "CFG huge_order={HUGE_ORDER} tree_huge={TREE_HUGE} frames={} init={} threads={n}",
+            "CFG huge_order={HUGE_ORDER} tree_huge={TREE_HUGE} frames={} init={} threads={n}{}",
             scn.frames,
-            if scn.alloc_all { "alloc" } else { "free" }
+            if scn.alloc_all { "alloc" } else { "free" },
+            if scn.upper { format!(" api=upper {}", scn.cfg.text()) } else { String::new() }
         );
         if scn.alloc_all {
             for h in 0..scn.frames / HUGE_FRAMES {
@@ -707,11 +1122,25 @@ impl<'a> Exec<'a> {
         }
         // sequential prologue on the main thread (hooks see no worker id)
         for &c in &scn.pre {
-            if let CallSpec::Put(f, o) = c {
+            let c = match c {
+                CallSpec::UPutPre { idx, off, order, class, local } => match ex.pre_res.get(idx).copied().flatten() {
+                    Some(f) => CallSpec::UPut { frame: f + off, order, class, local },
+                    None => {
+                        ex.pre_res.push(None);
+                        continue;
+                    }
+                },
+                c => c,
+            };
+            if let CallSpec::Put(f, o) | CallSpec::UPut { frame: f, order: o, .. } = c {
                 ex.take_held(f, o);
             }
             let r = exec_caught(&ex.alloc, c);
             let _ = writeln!(ex.text, "PRE {} {}", call_text(c), r.text());
+            ex.pre_res.push(match r {
+                Res::Frame(f) | Res::Frame2(f, _) => Some(f),
+                _ => None,
+            });
             ex.account(c, &r);
         }
         ex.snapshot();
@@ -751,7 +1180,7 @@ impl<'a> Exec<'a> {
     /// harness-side oracles on a completed call
     fn account(&mut self, c: CallSpec, r: &Res) {
         match (c, r) {
-            (CallSpec::Get(_, o) | CallSpec::GetAt(_, o), Res::Frame(f)) => {
+            (CallSpec::Get(_, o) | CallSpec::GetAt(_, o), Res::Frame(f)) | (CallSpec::UGet { order: o, .. }, Res::Frame2(f, _)) => {
                 let b = (*f, o);
                 if f % (1 << o) != 0 {
                     self.hfail(format!("misaligned block: {} -> frame {f} order {o}", call_text(c)));
@@ -767,7 +1196,7 @@ impl<'a> Exec<'a> {
                 }
                 self.held.push(b);
             }
-            (CallSpec::Put(f, o), Res::Err(e)) => {
+            (CallSpec::Put(f, o) | CallSpec::UPut { frame: f, order: o, .. }, Res::Err(e)) => {
                 self.hfail(format!("free of held block returned err {e}: put {f} {o}"));
             }
             (_, Res::Panic(m)) => {
@@ -790,8 +1219,9 @@ impl<'a> Exec<'a> {
         unsafe { std::ptr::copy_nonoverlapping(env.bufs.lower, env.snap.lower, env.bufs.lower_len) };
         let frames = self.scn.frames;
         let q = QUIET.with(|t| t.replace(true));
+        let classing = self.scn.cfg.classing();
         let r = catch_unwind(AssertUnwindSafe(|| {
-            let a = LLFree::new(frames, Init::Recover, &env.classing, env.snap.meta()).expect("recover");
+            let a = LLFree::new(frames, Init::Recover, &classing, env.snap.meta()).expect("recover");
             a.stats()
         }));
         QUIET.with(|t| t.set(q));
@@ -836,11 +1266,21 @@ impl<'a> Exec<'a> {
         }
         let t = b.trees as usize;
         if addr >= t && addr < t + b.trees_len {
-            return Loc::Other("trees", addr - t);
+            let off = addr - t;
+            if off % 4 == 0 && off / 4 < ntab(self.scn.frames) {
+                return Loc::Tree { i: off / 4 };
+            }
+            return Loc::Other("trees", off);
         }
         let l = b.local as usize;
         if addr >= l && addr < l + b.local_len {
-            return Loc::Other("local", addr - l);
+            let off = addr - l;
+            if off % 64 == 0 {
+                if let Some((class, idx)) = self.scn.cfg.slot_of(off / 64) {
+                    return Loc::Slot { class, idx };
+                }
+            }
+            return Loc::Other("local", off);
         }
         Loc::Other("other", addr)
     }
@@ -852,6 +1292,18 @@ impl<'a> Exec<'a> {
             match c {
                 CallSpec::PutLast(o) => match self.last[t] {
                     Some(f) => return Some(CallSpec::Put(f, o)),
+                    None => self.next[t] += 1,
+                },
+                CallSpec::UPutLast { order, class, local } => match self.last[t] {
+                    Some(f) => return Some(CallSpec::UPut { frame: f, order, class, local }),
+                    None => self.next[t] += 1,
+                },
+                CallSpec::UPutPre { idx, off, order, class, local } => match self.pre_res.get(idx).copied().flatten() {
+                    Some(f) => return Some(CallSpec::UPut { frame: f + off, order, class, local }),
+                    None => self.next[t] += 1,
+                },
+                CallSpec::UGetPre { idx, off, order, class, local } => match self.pre_res.get(idx).copied().flatten() {
+                    Some(f) => return Some(CallSpec::UGet { frame: Some(f + off), order, class, local }),
                     None => self.next[t] += 1,
                 },
                 c => return Some(c),
@@ -881,7 +1333,7 @@ impl<'a> Exec<'a> {
         if self.st[t] == St::Idle {
             let c = self.next_call(t).expect("step of a finished thread");
             self.next[t] += 1;
-            if matches!(self.scn.threads[t][self.next[t] - 1], CallSpec::PutLast(_)) {
+            if matches!(self.scn.threads[t][self.next[t] - 1], CallSpec::PutLast(_) | CallSpec::UPutLast { .. }) {
                 self.last[t] = None;
             }
             NEXT_CALL.lock().unwrap()[t] = Some(c);
@@ -900,7 +1352,7 @@ impl<'a> Exec<'a> {
             match ev {
                 Ev::Call(tid, c) => {
                     let _ = writeln!(self.text, "CALL {tid} {}", call_text(c));
-                    if let CallSpec::Put(f, o) = c {
+                    if let CallSpec::Put(f, o) | CallSpec::UPut { frame: f, order: o, .. } = c {
                         self.take_held(f, o);
                     }
                     self.st[tid] = St::Running(true);
@@ -935,6 +1387,12 @@ impl<'a> Exec<'a> {
                             let _ = writeln!(self.text, "S {tid} {kn} ent {h} 0 0 {} {found:x} {new} {okn}", width * 8);
                             wrote |= writes;
                         }
+                        Loc::Tree { i } => {
+                            let _ = writeln!(self.text, "S {tid} {kn} tree {i} 0 0 {} {found:x} {new} {okn}", width * 8);
+                        }
+                        Loc::Slot { class, idx } => {
+                            let _ = writeln!(self.text, "S {tid} {kn} slot {class} {idx} 0 {} {found:x} {new} {okn}", width * 8);
+                        }
                         Loc::Other(b, off) => {
                             let _ = writeln!(self.text, "X {tid} {kn} {b} {off} {} {found:x} {new} {okn}", width * 8);
                         }
@@ -944,7 +1402,7 @@ impl<'a> Exec<'a> {
                     let _ = writeln!(self.text, "RET {tid} {}", r.text());
                     let c = self.cur_call[tid].take().expect("ret without call");
                     self.st[tid] = if matches!(r, Res::Panic(_)) { St::Panicked } else { St::Idle };
-                    if let (CallSpec::Get(..) | CallSpec::GetAt(..), Res::Frame(f)) = (c, &r) {
+                    if let (CallSpec::Get(..) | CallSpec::GetAt(..), Res::Frame(f)) | (CallSpec::UGet { .. }, Res::Frame2(f, _)) = (c, &r) {
                         self.last[tid] = Some(*f);
                     }
                     self.account(c, &r);
@@ -957,10 +1415,100 @@ impl<'a> Exec<'a> {
         }
     }
 
+    /// ` trees=<hex u32,..> slots=<hex u64 in buffer order,..>` of an upper-API run
+    fn dump_upper(&self) -> String {
+        if !self.scn.upper {
+            return String::new();
+        }
+        let mut s = String::from(" trees=");
+        for i in 0..ntab(self.scn.frames) {
+            if i > 0 {
+                s.push(',');
+            }
+            let _ = write!(s, "{:x}", read_mem(self.env.bufs.trees as usize + 4 * i, 4));
+        }
+        s.push_str(" slots=");
+        for gi in 0..self.scn.cfg.nslots() {
+            if gi > 0 {
+                s.push(',');
+            }
+            let _ = write!(s, "{:x}", read_mem(self.env.bufs.local as usize + 64 * gi, 8));
+        }
+        if self.scn.cfg.nslots() == 0 {
+            s.push('-');
+        }
+        s
+    }
+
+    /// Quiescent checks after an upper-API run (all threads are done; main thread, no scheduling):
+    /// POST stats / tree_stats / validate, then a drain and probe allocations (C04, C10).
+    /// Skipped when a thread panicked (the allocator is then not quiescent in any useful sense).
+    fn post(&mut self) {
+        if self.panics > 0 {
+            let _ = writeln!(self.text, "POST skipped panics={}", self.panics);
+            return;
+        }
+        let alloc: &LLFree = &self.alloc;
+        let st = alloc.stats();
+        let ts = alloc.tree_stats();
+        let _ = writeln!(self.text, "POST stats free_frames={} free_huge={} free_trees={}", st.free_frames, st.free_huge, st.free_trees);
+        let _ = writeln!(self.text, "POST tree_stats free_frames={} free_trees={}", ts.free_frames, ts.free_trees);
+        let q = QUIET.with(|t| t.replace(true));
+        let v = catch_unwind(AssertUnwindSafe(|| alloc.validate()));
+        QUIET.with(|t| t.set(q));
+        match v {
+            Ok(()) => {
+                let _ = writeln!(self.text, "POST validate ok");
+            }
+            Err(_) => {
+                let m = PANIC_MSG.with(|m| m.borrow().clone());
+                let _ = writeln!(self.text, "POST validate panic {m}");
+            }
+        }
+        // drain, then probes: a base get per configured class (with slot 0 / without), targeted gets of a
+        // free frame, of a held frame and of an entirely free huge frame
+        let mut calls: Vec<CallSpec> = vec![CallSpec::UDrain];
+        let classes: Vec<(u8, usize)> = self.scn.cfg.classes.clone();
+        for &(c, n) in &classes {
+            calls.push(CallSpec::UGet { frame: None, order: 0, class: c, local: if n > 0 { Some(0) } else { None } });
+        }
+        let c0 = classes[0].0;
+        calls.push(CallSpec::UGet { frame: None, order: 0, class: c0, local: None });
+        for c in calls {
+            self.post_call(c);
+        }
+        let frames = self.scn.frames;
+        let is_held = |held: &Vec<(usize, usize)>, f: usize| held.iter().any(|&(b, o)| b <= f && f < b + (1 << o));
+        let free_frame = (0..frames).rev().find(|&f| !is_held(&self.held, f));
+        let held_frame = (0..frames).find(|&f| is_held(&self.held, f));
+        if let Some(f) = free_frame {
+            self.post_call(CallSpec::UGet { frame: Some(f), order: 0, class: c0, local: Some(0) });
+        }
+        if let Some(f) = held_frame {
+            self.post_call(CallSpec::UGet { frame: Some(f), order: 0, class: c0, local: None });
+        }
+        let free_huge = (0..frames / HUGE_FRAMES).rev().find(|&h| (h * HUGE_FRAMES..(h + 1) * HUGE_FRAMES).all(|f| !is_held(&self.held, f)));
+        if let Some(h) = free_huge {
+            let cl = classes.last().unwrap().0;
+            self.post_call(CallSpec::UGet { frame: Some(h * HUGE_FRAMES), order: HUGE_ORDER, class: cl, local: None });
+        }
+        let st = self.alloc.stats();
+        let _ = writeln!(self.text, "POST stats free_frames={} free_huge={} free_trees={}", st.free_frames, st.free_huge, st.free_trees);
+        let _ = writeln!(self.text, "POSTEND {}{}", dump_state(self.env.bufs.lower, self.scn.frames), self.dump_upper());
+    }
+    fn post_call(&mut self, c: CallSpec) {
+        let r = exec_caught(&self.alloc, c);
+        let _ = writeln!(self.text, "POST {} {}", call_text(c), r.text());
+        self.account(c, &r);
+    }
+
     fn finish(mut self) -> Done {
         let sched: Vec<String> = self.sched.iter().map(|t| t.to_string()).collect();
         let _ = writeln!(self.text, "SCHED {}", sched.join(","));
-        let _ = writeln!(self.text, "END {}", dump_state(self.env.bufs.lower, self.scn.frames));
+        let _ = writeln!(self.text, "END {}{}", dump_state(self.env.bufs.lower, self.scn.frames), self.dump_upper());
+        if self.scn.upper {
+            self.post();
+        }
         Done { text: self.text, sched: self.sched, nsteps: self.nsteps, hfail: self.hfail, panics: self.panics }
     }
 }
@@ -1260,9 +1808,26 @@ impl Chooser for Freeze {
                 self.solo += 1;
                 if self.solo == self.budget + 1 {
                     ex.hfail(format!("solo budget: thread {t} frozen at step {k} exceeds {} steps", self.budget));
+                    // The call may never return (or recurse until the stack overflows): hand the run so far to
+                    // the driver right away and stop the process; exceeding the budget already is the violation.
+                    use std::io::Write as _;
+                    let out = std::io::stdout();
+                    let mut out = out.lock();
+                    let _ = write!(out, "{}END-ABORTED\n", ex.text);
+                    let _ = out.flush();
+                    eprintln!("schedrun: solo run exceeds its step budget, giving up");
+                    std::process::exit(3);
                 }
                 if self.solo > 100 * self.budget + 1000 {
-                    eprintln!("{}HFAIL solo stuck: thread {t} frozen at step {k} does not finish", ex.text);
+                    // hand the run so far (incl. the `HFAIL solo budget` line) to the driver, then stop:
+                    // the thread cannot be cancelled, so the process ends here
+                    {
+                        use std::io::Write as _;
+                        let out = std::io::stdout();
+                        let mut out = out.lock();
+                        let _ = write!(out, "{}HFAIL solo stuck: thread {t} frozen at step {k} does not finish within {} steps\nEND-ABORTED\n", ex.text, 100 * self.budget + 1000);
+                        let _ = out.flush();
+                    }
                     eprintln!("schedrun: solo run does not terminate, giving up");
                     std::process::exit(3);
                 }
@@ -1318,11 +1883,12 @@ fn run_freeze(env: &'static Env, scn: &'static Scenario, base: &[usize], budget:
 // ------------------------------------------------------------------------------------------------
 fn check_layout(env: &Env) {
     let frames = env.frames;
-    let m = LLFree::metadata_size(&env.classing, frames);
+    let classing = Classing::simple(1).0;
+    let m = LLFree::metadata_size(&classing, frames);
     assert_eq!(m.lower, nbf(frames) * BF_SIZE + ntab(frames) * TAB_SIZE, "lower metadata size");
     assert_eq!(env.bufs.lower as usize % 64, 0);
     env.bufs.zero();
-    let a = LLFree::new(frames, Init::FreeAll, &env.classing, env.bufs.meta()).expect("new");
+    let a = LLFree::new(frames, Init::FreeAll, &classing, env.bufs.meta()).expect("new");
     let lo = env.bufs.lower as usize;
     let tbase = lo + nbf(frames) * BF_SIZE;
     let ent = |h: usize| read_mem(tbase + (h / TREE_HUGE) * TAB_SIZE + 2 * (h % TREE_HUGE), 2);
@@ -1373,7 +1939,7 @@ fn parse_sched(s: &str) -> Vec<usize> {
 
 fn usage() -> ! {
     eprintln!(
-        "usage: schedrun --mode exhaustive|pct|replay|freeze --scenario <name,name,..|all> [--scenario-file f]\n\
+        "usage: schedrun --mode exhaustive|pct|replay|freeze --scenario <name,name,..|all> [--scenario-file f] [--api lower|upper]\n\
          \x20  [--preemptions P] [--runs N] [--depth d] [--seed s] [--schedule 0,1,0,..] [--budget B] [--sample m]\n\
          \x20  [--snapshots] [--shard i/n] [--max-runs M] [--spin n] [--out file] [--list] [--verbose]"
     );
@@ -1382,10 +1948,26 @@ fn usage() -> ! {
 
 fn main() {
     let args = Args::parse();
-    let all = builtin();
+    // `--api lower` (default): the scenarios that call the lower allocator directly; `--api upper`: LLFree's API
+    let upper = match args.get("api") {
+        Some("upper") => true,
+        Some("lower") | None => false,
+        Some(x) => {
+            eprintln!("schedrun: unknown --api {x}");
+            std::process::exit(2)
+        }
+    };
+    let all: Vec<Scenario> = builtin();
     if args.flag("list") {
-        for s in &all {
-            println!("{} threads={} init={} frames={}", s.name, s.threads.len(), if s.alloc_all { "alloc" } else { "free" }, s.frames);
+        for s in all.iter().filter(|s| s.upper == upper) {
+            println!(
+                "{} threads={} init={} frames={}{}",
+                s.name,
+                s.threads.len(),
+                if s.alloc_all { "alloc" } else { "free" },
+                s.frames,
+                if s.upper { format!(" api=upper {}", s.cfg.text()) } else { String::new() }
+            );
         }
         return;
     }
@@ -1396,7 +1978,7 @@ fn main() {
         scns.push(scenario_from_file(f));
     }
     match args.get("scenario") {
-        Some("all") => scns.extend(all.iter().cloned()),
+        Some("all") => scns.extend(all.iter().filter(|s| s.upper == upper).cloned()),
         Some(list) => {
             for n in list.split(',') {
                 match all.iter().find(|s| s.name == n) {
@@ -1468,7 +2050,6 @@ fn main() {
         let env: &'static Env = Box::leak(Box::new(Env {
             bufs: Bufs::new(frames, &classing),
             snap: Bufs::new(frames, &classing),
-            classing,
             frames,
             snapshots,
         }));
